@@ -1,6 +1,6 @@
 """C19 - Division conserves molecules and volume; lineage records are consistent."""
 import os
-CONTRACT_MODULES = ['splitters', 'random_', 'lineage_sim', 'simulator_interfaces', 'simulator_ssa', 'types_rules']
+CONTRACT_MODULES = ['splitters', 'random_', 'lineage_sim', 'lineage_rules', 'simulator_interfaces', 'simulator_ssa', 'types_rules']
 PRELOAD = ['lineage']
 SPEC_MODULES = ['functions']
 LEVEL = 'proof'
